@@ -8,7 +8,8 @@ TB = ("Trusts: Coq 8.16.1 kernel (vm_compute for finite sweeps, no native_comput
       "ExtrOcamlBasic-extracted model in ocaml/driver); C integer semantics modelled in Z under stated range hypotheses.")
 CLAIMED = {
  "C01": ("Theorems c01_tag_iteration_safe, c01_radiotap_safe, c01_classify_safe, c01_fcs_safe, c01_pipeline_safe: every refinement theorem "
-         "instantiated with the read oracle that FAULTS outside the supplied buffer - for every byte string of every length, in both radiotap "
+         "instantiated with the read oracle that FAULTS outside the supplied buffer (c01_ie_decoders_safe: also the three element decoders "
+         "called directly) - for every byte string of every length, in both radiotap "
          "modes, every parser applied to every classified frame returns (no fuel exhaustion), reads nothing outside the buffer or the "
          "library's own copies, and yields success or a negative code. PARTIAL: machine-level undefined behaviour below the model (misaligned "
          "typed loads, aliasing) is only observed by ASan/UBSan in the correspondence runs (exhaustive lengths 0..2, every truncation and "
@@ -37,18 +38,21 @@ CLAIMED = {
          "generator-layout, crafted, truncated and radiotap/FCS-wrapped frames and compared field by field.",
          "Rocq refinement + round-trip proofs; differential correspondence"),
  "C05": ("Theorems c05_inv (every history of any length keeps the stored bytes a well-formed element sequence with the recorded length), "
-         "c05_step_refines (add/remove/set/check agree with the reference list whenever the property constrains them), c05_enc_injective; "
+         "c05_step_refines / c05_step_refines_total (add/remove/set/check agree with the reference list for EVERY list - the reference is "
+         "total since the iterator reports empty elements), c05_spec_total, c05_enc_injective; "
          "the model of tag.c is run against the library on breadth-first histories (state-deduplicated) and long random histories, "
          "comparing return value, length and bytes after every operation.",
          "Rocq invariant-by-induction + refinement to an abstract list; differential histories"),
  "C06": ("Theorem c06_iterate_exact: for every buffer and every read oracle that agrees with it inside its bounds (arbitrary or faulting "
          "outside) init + the do/while loop return exactly Spec.spec_iterate - termination and in-bounds reads included - plus soundness, "
-         "order, maximality, prefix-completeness, first-element refusal and a report bound on the Spec; iterator fields after every step "
+         "order, maximality, completeness (c06_reports_all: EVERY element of the chain is reported, empty ones included), first-element "
+         "refusal and a report bound on the Spec; iterator fields after every step "
          "are compared with the library on exhaustive length-skeleton buffers and random buffers.",
          "Rocq refinement proof over a read-oracle model; differential correspondence"),
  "C08": ("Theorems c08_tables (the six selector->flag switches read from the source equal the documented tables for ALL selectors), "
-         "c08_constants, c08_flags_exact, c08_rsn_decode_exact / c08_wpa_decode_exact (decoded fields equal the element bytes, elements too "
-         "short for their counts are refused, every read inside the element), c08_bss_exact (the four BSS parsers report exactly the "
+         "c08_constants, c08_flags_exact, c08_rsn_decode_exact / c08_wpa_decode_exact (for elements of EVERY length: decoded fields equal the "
+         "element bytes, lists are delimited by their declared counts with six suites kept, optional trailing fields may be absent, elements "
+         "too short for their counts are refused, every read inside the element), c08_bss_exact (the four BSS parsers report exactly the "
          "Spec's summary incl. the WEP and WPS rules). Compared with the library on every single-suite element (256 selectors x kinds x "
          "lists x OUIs), count/suite mismatches, truncation at every byte and random combinations.",
          "Rocq refinement proofs + 256-selector table sweeps over translator-regenerated switch tables"),
